@@ -14,7 +14,7 @@ CHECK = {
     "required_oracles": ["conformal.h_over_k", "conformal.orthogonality", "scale.standard_parallel_k",
                          "scale.tangent_parallel_k", "origin.to_false_origin_m", "central_meridian.x_m",
                          "roundtrip.lat_rad", "roundtrip.lon_rad", "forward.vs_snyder_m"],
-    "required_counters": ["loop_hook_calls", "points"],
+    "required_counters": ["loop_hook_calls", "points", "roundtrip_points_north", "roundtrip_points_south"],
     "rule": "case = one projection parameter set + 25 (quick) / 40 (thorough) points.  Sets: secant with standard "
             "parallels 1..20 deg apart inside 15..75 deg (ends and the 1 deg / 20 deg gaps included, either order), "
             "origin latitude on / between / up to 3 deg outside the parallels; tangent with latitude0 in 15..75 deg and "
